@@ -129,6 +129,7 @@ class World:
         elif kind.startswith("ns"):
             fr = {"ns": "none", "ns+f": "sync", "ns+af": "async"}[kind]
             self.store = storage.NsStoreWrap(self.nskey, fr, matter=cfg.get("matter", False))
+            self.store.thread_safe = bool(cfg.get("thread_safe"))  # ThreadSafeLRUCache, single-threaded use
         else:
             raise ValueError(kind)
         self.store.activate()
@@ -948,6 +949,7 @@ def gen_plan(seed: int, tier: str) -> dict:
         "env_globals": rng.choice([{}, {}, {"gv": "E"}]),
         "parked": rng.random() < 0.5,
         "matter": rng.random() < 0.3,
+        "thread_safe": rng.random() < 0.3,
         "policy": rng.choice(simsched.POLICIES),
     }
     names = list(NAME_POOL[: rng.choice([2, 3, 3, 4])])
